@@ -34,7 +34,16 @@ theorem find?_filter_pid (l : List Inst) (p q : Nat) :
       · simp [hap, List.find?_cons, ih, hqp]
 
 theorem apply_spawn_free {k : Kernel} {p : Nat} (h : k.find p = none) :
-    k.apply (.spawn p) = { k with procs := ⟨p, k.clock, false⟩ :: k.procs, clock := k.clock + 1 } := by
+    k.apply (.spawn p) = { k with procs := ⟨p, k.clock, false, k.clock⟩ :: k.procs, clock := k.clock + 1 } := by
+  simp only [Kernel.apply, h]
+
+theorem apply_sst_free {k : Kernel} {p : Nat} (h : k.find p = none) :
+    k.apply (.spawnSameTick p)
+      = { k with procs := ⟨p, k.clock, false, k.clock - 1⟩ :: k.procs, clock := k.clock + 1 } := by
+  simp only [Kernel.apply, h]
+
+theorem apply_sst_busy {k : Kernel} {p : Nat} {x : Inst} (h : k.find p = some x) :
+    k.apply (.spawnSameTick p) = k := by
   simp only [Kernel.apply, h]
 
 theorem apply_spawn_busy {k : Kernel} {p : Nat} {x : Inst} (h : k.find p = some x) :
@@ -47,6 +56,21 @@ theorem owner_spawn (k : Kernel) (p q : Nat) :
   | some x => rw [apply_spawn_busy h]; simp [Kernel.owner, h]
   | none =>
     rw [apply_spawn_free h]
+    by_cases hq : q = p
+    · subst hq
+      have ho : k.owner q = none := by simp [Kernel.owner, h]
+      rw [if_pos ⟨rfl, ho⟩]
+      simp [Kernel.owner, Kernel.find]
+    · have : ¬ p = q := fun e => hq e.symm
+      simp [Kernel.owner, Kernel.find, hq, this]
+
+/-- a same-tick spawn creates a NEW incarnation (own `start`) just like `spawn`; only its `stamp` repeats -/
+theorem owner_sst (k : Kernel) (p q : Nat) :
+    (k.apply (.spawnSameTick p)).owner q = if q = p ∧ k.owner p = none then some k.clock else k.owner q := by
+  cases h : k.find p with
+  | some x => rw [apply_sst_busy h]; simp [Kernel.owner, h]
+  | none =>
+    rw [apply_sst_free h]
     by_cases hq : q = p
     · subst hq
       have ho : k.owner q = none := by simp [Kernel.owner, h]
@@ -96,6 +120,7 @@ theorem clock_mono (k : Kernel) (e : KEv) : k.clock ≤ (k.apply e).clock := by
   | setBtime b => exact Nat.le_refl _
   | perm p e => rw [(apply_perm_rest k p e).2.1]; exact Nat.le_refl _
   | hide p b => rw [(apply_hide_rest k p b).2.1]; exact Nat.le_refl _
+  | spawnSameTick p => simp only [Kernel.apply]; split <;> simp
 
 /-- an owner is always stamped before "now" -/
 def Kernel.Stamped (k : Kernel) : Prop := ∀ x ∈ k.procs, x.start < k.clock
@@ -114,31 +139,50 @@ theorem dead_stays_dead (k : Kernel) (e : KEv) (pid g : Nat) (hg : g < k.clock)
   | setBtime b => exact hd
   | perm p e => rw [owner_perm]; exact hd
   | hide p b => rw [owner_hide]; exact hd
+  | spawnSameTick p =>
+    rw [owner_sst]; split
+    · intro h; injection h with h; omega
+    · exact hd
 
 /-! ### kernel invariant -/
 
-structure KInv (k : Kernel) : Prop where
+/-- a published / cached boot time the proofs can live with: any value once `create_time()` tests
+    `BOOT_TIME is not None` (`nt = true`: fixes/C02-boottime-zero), a non-zero one while it tests truthiness
+    (`BOOT_TIME or boot_time()` treats a cached 0.0 as unset) -/
+abbrev BtOK (nt : Bool) (b : Nat) : Prop := nt = true ∨ b ≠ 0
+
+structure KInv (nt : Bool) (k : Kernel) : Prop where
   uniq : (k.procs.map (·.pid)).Nodup
   stamped : ∀ x ∈ k.procs, x.start < k.clock
-  btime : k.btime ≠ 0
+  btime : BtOK nt k.btime
   nohide : k.hidden = []
+  /-- one incarnation per clock tick: what the stat file shows identifies the incarnation -/
+  stamp : ∀ x ∈ k.procs, x.stamp = x.start
 
-/-- events a history may contain: the published boot time is never 0 (1970-01-01) and — what psutil's
+/-- events a history may contain: the published boot time is never 0 (1970-01-01) — only while `create_time()` tests
+    the cached value by truthiness (`nt = false`), see `BtOK` — and — what psutil's
     `_init` assumes about every platform but Windows — `/proc/pid/stat` can always be opened (no `hide p true`).
     Permission changes (`perm`) are unrestricted. -/
-def KEv.OK : KEv → Prop
-  | .setBtime b => b ≠ 0
+def KEv.OK (e : KEv) (nt : Bool) : Prop :=
+  match e with
+  | .setBtime b => BtOK nt b
   | .hide _ on => on = false
+  | .spawnSameTick _ => False      -- psutil's documented assumption: a PID is not recycled within one clock tick
   | _ => True
 
-theorem KInv.apply {k : Kernel} (h : KInv k) (e : KEv) (he : e.OK) : KInv (k.apply e) := by
+theorem KInv.apply {nt : Bool} {k : Kernel} (h : KInv nt k) (e : KEv) (he : e.OK nt) : KInv nt (k.apply e) := by
   cases e with
   | spawn p =>
     cases hf : k.find p with
     | some x => rw [apply_spawn_busy hf]; exact h
     | none =>
       rw [apply_spawn_free hf]
-      refine ⟨?_, ?_, h.btime, h.nohide⟩
+      refine ⟨?_, ?_, h.btime, h.nohide, ?_⟩
+      rotate_left 2
+      · intro x hx
+        rcases List.mem_cons.1 hx with rfl | hx
+        · rfl
+        · exact h.stamp x hx
       · simp only [List.map_cons, List.nodup_cons]
         refine ⟨?_, h.uniq⟩
         intro hm
@@ -150,7 +194,13 @@ theorem KInv.apply {k : Kernel} (h : KInv k) (e : KEv) (he : e.OK) : KInv (k.app
         · exact Nat.lt_succ_self _
         · exact Nat.lt_succ_of_lt (h.stamped x hx)
   | exit p =>
-    refine ⟨?_, ?_, h.btime, h.nohide⟩
+    refine ⟨?_, ?_, h.btime, h.nohide, ?_⟩
+    rotate_left 2
+    · intro x hx
+      simp only [Kernel.apply, List.mem_map] at hx
+      obtain ⟨y, hy, rfl⟩ := hx
+      have := h.stamp y hy
+      split <;> exact this
     · have : (k.apply (.exit p)).procs.map (·.pid) = k.procs.map (·.pid) := by
         simp only [Kernel.apply, List.map_map]
         apply List.map_congr_left
@@ -162,26 +212,27 @@ theorem KInv.apply {k : Kernel} (h : KInv k) (e : KEv) (he : e.OK) : KInv (k.app
       have := h.stamped y hy
       split <;> exact this
   | reap p =>
-    refine ⟨?_, ?_, h.btime, h.nohide⟩
+    refine ⟨?_, ?_, h.btime, h.nohide, fun x hx => h.stamp x (List.mem_filter.1 hx).1⟩
     · exact List.Nodup.sublist (List.Sublist.map _ List.filter_sublist) h.uniq
     · intro x hx
       exact h.stamped x (List.mem_filter.1 hx).1
   | tick n =>
-    refine ⟨h.uniq, ?_, h.btime, h.nohide⟩
+    refine ⟨h.uniq, ?_, h.btime, h.nohide, h.stamp⟩
     intro x hx
     exact Nat.lt_of_lt_of_le (h.stamped x hx) (Nat.le_add_right _ _)
-  | setBtime b => exact ⟨h.uniq, h.stamped, he, h.nohide⟩
+  | setBtime b => exact ⟨h.uniq, h.stamped, he, h.nohide, h.stamp⟩
+  | spawnSameTick p => exact he.elim
   | perm p e =>
     obtain ⟨hp, hc, hb, hh⟩ := apply_perm_rest k p e
-    exact ⟨by rw [hp]; exact h.uniq, by rw [hp, hc]; exact h.stamped, by rw [hb]; exact h.btime, by rw [hh]; exact h.nohide⟩
+    exact ⟨by rw [hp]; exact h.uniq, by rw [hp, hc]; exact h.stamped, by rw [hb]; exact h.btime, by rw [hh]; exact h.nohide, by rw [hp]; exact h.stamp⟩
   | hide p b =>
     obtain ⟨hp, hc, hb, _⟩ := apply_hide_rest k p b
-    refine ⟨by rw [hp]; exact h.uniq, by rw [hp, hc]; exact h.stamped, by rw [hb]; exact h.btime, ?_⟩
+    refine ⟨by rw [hp]; exact h.uniq, by rw [hp, hc]; exact h.stamped, by rw [hb]; exact h.btime, ?_, by rw [hp]; exact h.stamp⟩
     simp only [KEv.OK] at he
     subst he
     simp [Kernel.apply, h.nohide]
 
-theorem KInv.find_lt {k : Kernel} (h : KInv k) {pid : Nat} {x : Inst} (hf : k.find pid = some x) :
+theorem KInv.find_lt {nt : Bool} {k : Kernel} (h : KInv nt k) {pid : Nat} {x : Inst} (hf : k.find pid = some x) :
     x.start < k.clock := h.stamped x (List.mem_of_find?_eq_some hf)
 
 theorem mem_eq_of_nodup_pid : ∀ {l : List Inst}, (l.map (·.pid)).Nodup →
@@ -196,7 +247,7 @@ theorem mem_eq_of_nodup_pid : ∀ {l : List Inst}, (l.map (·.pid)).Nodup →
     · exact mem_eq_of_nodup_pid hn.2 ha' hb' hab
 
 /-- with unique PIDs, "my incarnation is in the table" is "my incarnation owns my PID" -/
-theorem listed_iff_owner {k : Kernel} (h : KInv k) (o : PObj) :
+theorem listed_iff_owner {nt : Bool} {k : Kernel} (h : KInv nt k) (o : PObj) :
     Listed k o ↔ k.owner o.pid = some o.ghost := by
   constructor
   · rintro ⟨x, hx, hp, hs⟩
